@@ -1,23 +1,24 @@
 #!/bin/bash
-# usage: verify_neutral.sh <Cxx> [src_dir]
+# usage: verify_neutral.sh <Cxx> [variant (default n)] [src_dir]
 # Confirms a behaviour-preserving refactoring written by a sub-agent: patch applies on a fresh
 # scratch worktree of /repo, the library builds, gofmt/vet clean, the whole suite passes.
 # On success stores it as /verif/controls/neutral/R-<Cxx>-agent-refactoring.diff (+ .json with the agent's argument).
 set -u
 export GOFLAGS=-mod=mod GOPROXY=off GOSUMDB=off GOTOOLCHAIN=local; unset GOWORK
-ID=$1; SRC=${2:-/tmp/seed/out/$ID/n}
+ID=$1; V=${2:-n}; SRC=${3:-/tmp/seed/out/$ID/$V}
+TAG=$ID; [ "$V" != "n" ] && TAG=$ID-$V
 WT=$(mktemp -d /tmp/neutralverify.XXXXXX); rmdir "$WT"
 git -C /repo worktree add -q --detach "$WT" HEAD || exit 9
 cleanup(){ git -C /repo worktree remove --force "$WT" >/dev/null 2>&1; rm -rf "$WT"; }
 trap cleanup EXIT
 cd "$WT"
-git apply "$SRC/patch.diff" || { echo "RESULT ${ID}n: patch does not apply"; exit 1; }
-go build ./... || { echo "RESULT ${ID}n: does not build"; exit 1; }
+git apply "$SRC/patch.diff" || { echo "RESULT ${TAG}: patch does not apply"; exit 1; }
+go build ./... || { echo "RESULT ${TAG}: does not build"; exit 1; }
 go vet ./... >/dev/null 2>&1 || echo "note: go vet complains"
 SUITE=$(/verif/tools/suite.sh "$WT" 2>&1 | tail -1)
 echo "suite with change: $SUITE"
-case "$SUITE" in *"failed=0"*"missing_from_pass=0"*) ;; *) echo "RESULT ${ID}n: suite fails with change"; exit 1;; esac
-if git diff --name-only | grep -q "_test.go"; then echo "RESULT ${ID}n: touches test files"; exit 1; fi
-cp "$SRC/patch.diff" /verif/controls/neutral/R-$ID-agent-refactoring.diff
-cp "$SRC/meta.json" /verif/controls/neutral/R-$ID-agent-refactoring.json 2>/dev/null
-echo "RESULT ${ID}n: STORED ($(git diff --stat | tail -1))"
+case "$SUITE" in *"failed=0"*"missing_from_pass=0"*) ;; *) echo "RESULT ${TAG}: suite fails with change"; exit 1;; esac
+if git diff --name-only | grep -q "_test.go"; then echo "RESULT ${TAG}: touches test files"; exit 1; fi
+cp "$SRC/patch.diff" /verif/controls/neutral/R-$TAG-agent-refactoring.diff
+cp "$SRC/meta.json" /verif/controls/neutral/R-$TAG-agent-refactoring.json 2>/dev/null
+echo "RESULT ${TAG}: STORED ($(git diff --stat | tail -1))"
